@@ -188,3 +188,9 @@ impl Storage {
         &self.delta
     }
 }
+
+#[cfg(kani)]
+mod verif_kani {
+    use super::*;
+    include!(concat!(env!("LIBTW2_VERIF_HARNESS"), "/snapshot_storage.rs"));
+}
